@@ -33,7 +33,7 @@ from .par import pmap
 from .tlc import SPEC_DIR, VERIF, MachineryError, cfg_text, run_tlc, scratch
 
 CACHE = os.path.join(VERIF, ".cache")
-FAMILIES = ("single", "pair", "size", "limit", "cfg", "usage")
+FAMILIES = ("single", "pair", "size", "limit", "cfg", "usage", "variant")
 
 # ------------------------------------------------------------------------------------------ building blocks
 RULES = "LT01,LT02,LT05,LT09,AM04"          # lint / fix scenarios
@@ -153,6 +153,8 @@ def concretise(rec: dict) -> dict:
         cfg.append("large_file_skip_fail = True")
     if rec["runaway"]:
         cfg.append(f"runaway_limit = {rec['runaway']}")
+    if rec.get("vlimit"):
+        cfg.append(f"render_variant_limit = {rec['vlimit']}")
     byte_limit = char_limit = None
     if rec["limkind"] != "none":
         f0 = files[0]
@@ -504,15 +506,25 @@ def run_subprocess(root: str, rec: dict, plan: dict, stdin: bool) -> dict:
     return o
 
 
+def default_variant_limit() -> int:
+    src = sq.read(os.path.join(sq.REPO, "src", "sqlfluff", "core", "default_config.cfg"))
+    m = re.search(r"^render_variant_limit\s*=\s*(\d+)", src, flags=re.M)
+    return int(m.group(1)) if m else 5
+
+
 def observe_facts(root: str, rec: dict, plan: dict) -> List[dict]:
-    """Which violations each file has, with their flags: a lint-mode run of the path pipeline with the size limits off.
+    """Which violations each file has, with their flags: a lint-mode run of the path pipeline under NEUTRAL pipeline
+    settings (size limits off, default render_variant_limit; lint mode, so no loop limit).  This double-checks that
+    the building blocks show the planned facts; the scenario's own pipeline settings (limits, variant limit,
+    runaway limit) are what the entry-point runs are judged on, so they must not decide which errors a file "has".
 
     Pure projection of LintedFile.violations; `suppressed` = the violation's own ignore flag or dropped by the mask.
     """
     from sqlfluff.core import FluffConfig, Linter
     from sqlfluff.core.errors import SQLLintError, SQLParseError, SQLTemplaterError
 
-    ov: Dict[str, Any] = {"large_file_skip_byte_limit": 0, "large_file_skip_char_limit": 0}
+    ov: Dict[str, Any] = {"large_file_skip_byte_limit": 0, "large_file_skip_char_limit": 0,
+                          "render_variant_limit": default_variant_limit()}
     if rec["cmd"] == "format":
         ov["rules"] = format_rules()
     _reset_files(root, plan)
